@@ -34,15 +34,15 @@ func permutations(n int) [][]int {
 func init() {
 	register(&Prop{
 		ID: "C04", Level: "exploration",
-		Rule: "case i < E: release-order enumeration - a base history creates 3 snapshots (one of them a snapshot of a snapshot) interleaved with mutations/flushes, then the 4 holders {S1,S2,S3,original} are released in one of the 4! orders (index selects base and order), with mutations of the original, node-reuse forcing in a scratch store and a complete re-read of every open handle after each release. Other cases: random histories interleaving original-side ops (mutations, Flush, Evict, SetCollection new/existing, RemoveCollection, Close+reopen, readers suspended in a callback) with snapshot-side ops (Snapshot, snapshot of snapshot, reads, FlushRevert on the snapshot, refused mutations, Close), up to 5 snapshots alive; after EVERY step every open snapshot and the original are completely re-read and compared with per-handle models, the hook walk checks that no reachable node is on a free list / zeroed / wrongly marked, and the file monitor rejects any write or truncate tagged with a snapshot operation. Non-trivial = a snapshot was read after the original was mutated and another handle was released; distinct = distinct op-trace hash.",
+		Rule: "case i < E: release-order enumeration - a base history creates 3 snapshots (one of them a snapshot of a snapshot) interleaved with mutations/flushes, then the 4 holders {S1,S2,S3,original} are released in one of the 4! orders (index selects base and order), with mutations of the original, node-reuse forcing in a scratch store and a complete re-read of every open handle after each release. Other cases: random histories interleaving original-side ops (mutations, Flush, Evict, SetCollection new/existing, RemoveCollection, Close+reopen, readers suspended in a callback) with snapshot-side ops (Snapshot, snapshot of snapshot, reads, FlushRevert on the snapshot, refused mutations, Close), up to 5 snapshots alive; after EVERY step every open snapshot and the original are completely re-read and compared with per-handle models, the hook walk checks that no reachable node is on a free list / zeroed / wrongly marked, and the file monitor rejects any write or truncate tagged with a snapshot operation. Parallel cases: 8 goroutines read through the original handle (in half of the cases a replacement handle from SetCollection on the existing name) and through 1-3 snapshots of it in true parallelism; the shared version's pin count must come out exactly one per open handle and everything must still read correctly. Non-trivial = a snapshot was read after the original was mutated and another handle was released; distinct = distinct op-trace hash.",
 		Assumptions: []string{
 			"snapshots created before a FlushRevert of the ORIGINAL are closed first (README declares them invalid)",
 			"after a snapshot's own FlushRevert its expected contents are the flush before the last one as of its creation",
 		},
-		NumCases: func(tier string) int { return pick(tier, 24*8, 24*200) + pick(tier, 800, 25000) },
+		NumCases: func(tier string) int { return pick(tier, 24*8, 24*200) + pick(tier, 800, 25000) + pick(tier, 16, 400) },
 		Run:      runC04,
 		Floor: func(tier string, st map[string]int64) string {
-			for _, k := range []string{"op.Snapshot", "op.SnapClose", "op.SnapRevert", "op.SnapMutate", "readbacks", "walks", "c04.release-orders", "churn.inserts", "op.SetCollection.existing", "op.RemoveCollection"} {
+			for _, k := range []string{"op.Snapshot", "op.SnapClose", "op.SnapRevert", "op.SnapMutate", "readbacks", "walks", "c04.release-orders", "churn.inserts", "op.SetCollection.existing", "op.RemoveCollection", "c04.parallel-handle-cases"} {
 				if st[k] == 0 {
 					return "no " + k + " observed"
 				}
@@ -57,6 +57,16 @@ func runC04(ctx *Ctx, idx int) Result {
 	r := gen.New(seed)
 	SeedGlobalRand(seed)
 	nEnum := pick(ctx.Tier, 24*8, 24*200)
+	if idx >= nEnum+pick(ctx.Tier, 800, 25000) {
+		// snapshots and the (possibly replaced) original handle used by parallel readers: the shared
+		// version's pin count must be conserved and every handle must keep reading its contents
+		res := runC10Parallel(ctx, idx, r)
+		if res.Viol != nil {
+			res.Viol.Sig = "C04/parallel-handles/" + res.Viol.Sig
+		}
+		ctx.Stats["c04.parallel-handle-cases"]++
+		return res
+	}
 	if idx < nEnum {
 		return runC04Release(ctx, idx, r)
 	}
